@@ -18,6 +18,8 @@ func main() {
 		cmdRun(os.Args[2:])
 	case "check":
 		cmdCheck(os.Args[2:])
+	case "replay":
+		cmdReplay(os.Args[2:])
 	default:
 		fmt.Fprintln(os.Stderr, "unknown command", os.Args[1])
 		os.Exit(2)
@@ -58,7 +60,7 @@ func cmdRun(args []string) {
 	fmt.Printf("asserts checked=%d folded=%d unsat=%d sat=%d unknown=%d reached=%v\n", ex.assertsChecked, ex.assertsFolded, ex.assertsUnsat, ex.assertsSat, ex.assertsUnknown, ex.reached)
 	for _, v := range ex.violations {
 		b, _ := json.Marshal(v.Inputs)
-		fmt.Printf("VIOL %s: %s inputs=%s\n", v.Assert, v.Msg, b)
+		fmt.Printf("VIOL %s: %s inputs=%s\n  obs=%q\n", v.Assert, v.Msg, b, v.Obs)
 	}
 	for k, n := range ex.inconcKinds {
 		fmt.Printf("INCONCLUSIVE kind=%s n=%d\n", k, n)
@@ -106,7 +108,3 @@ func loadWitness(path string) map[string]interface{} {
 	return m
 }
 
-func cmdCheck(args []string) {
-	fmt.Fprintln(os.Stderr, "check: not implemented yet")
-	os.Exit(2)
-}
